@@ -70,6 +70,7 @@ fn gen_chain(rng: &mut Rng) -> Chain {
                 gen::Extra::OutOfRoleStream,
                 gen::Extra::GetValuesNonNull,
             ],
+            marker: None,
         };
         reqs.push(gen::push_request(rng, &mut bytes, &spec));
         modes.push(*rng.pick(&[Mode::ReadAll, Mode::ReadAll, Mode::Partial, Mode::Nothing]));
